@@ -12,7 +12,7 @@ RULE = ("random programs in which prepare_all / measure_all are ordinary gates p
         "prepare_all and the following measure_all, every measure_all has a prepare_all, no repeating loop closes a subcircuit opened before "
         "it; accepted programs must report one subcircuit per pair in flat order; non-trivial = the reference rejects, or > 1 subcircuit")
 BOUND = "n <= 3 qubits, depth <= 3, <= 3 statements per block, loop counts 0..3"
-BUDGET_S = {"quick": 40, "thorough": 900}
+BUDGET_S = {"quick": 40, "thorough": 400}
 
 
 def cases(tier, rng):
